@@ -366,6 +366,29 @@ def run(ctx):
             shutil.rmtree(root, ignore_errors=True)
     pmap(docs, list(range(len(DOCS))), workers=6)
 
+    # (iii-d) several open generic definitions whose unions have the same shape over differently named type parameters
+    def generics_zoo():
+        model = ('"Labeled<T>": !record\n  fields:\n    v: [T, string]\n    o: T?\n'
+                 '"Tagged<U>": !record\n  fields:\n    w: [U, string]\n    x: [null, U, int]\n'
+                 '"Pairing<A, B>": !record\n  fields:\n    p: [A, B]\n    q: A->B\n'
+                 '"Swapped<B, A>": !record\n  fields:\n    p: [B, A]\n    r: [A, B]\n'
+                 '"AliasG<K>": [K, float]\n"AliasH<V>": [V, float]\n'
+                 'Uses: !record\n  fields:\n    a: Labeled<int>\n    b: Tagged<float>\n    c: Pairing<int, string>\n    d: Swapped<string, int>\n    e: AliasG<string>\n    f: AliasH<bool>\n    g: Labeled<Tagged<float>>\n'
+                 'ZooProto: !protocol\n  sequence:\n    u: Uses\n    s: !stream\n      items: Tagged<double>\n')
+        root = os.path.join(ctx.workdir, "cases", "generics_zoo")
+        shutil.rmtree(root, ignore_errors=True)
+        outs = ("cpp:\n  sourcesOutputDir: ../out/cpp\n  generateHDF5: false\n  generateCMakeLists: false\n  overrideArrayHeader: %s\npython:\n  outputDir: ../out/python\n"
+                "matlab:\n  outputDir: ../out/matlab\njson:\n  outputDir: ../out/json\n" % cxx.ARRAY_HEADER)
+        common.write_tree(root, {"pkg/_package.yml": "namespace: GenZoo\n" + outs, "pkg/model.yml": model})
+        res = check_outputs(ctx, root, os.path.join(root, "pkg"), home, "generic definitions with equally shaped unions over differently named type parameters", "generics-zoo", full_cpp=True)
+        ctx.case(("generics-zoo",))
+        ctx.count("generics-zoo.%s" % res)
+        if res == "rejected":
+            ctx.violation("valid-model-rejected:generics-zoo", "the generics zoo is rejected", {"case_dir": root})
+        elif res != "bad":
+            shutil.rmtree(root, ignore_errors=True)
+    generics_zoo()
+
     # (iv) init scaffolds
     def init(nm):
         root = os.path.join(ctx.workdir, "cases", "init_%s" % nm[:30])
